@@ -169,7 +169,7 @@ fn cmd_proc(args: &[String]) -> i32 {
     let mut cache = Cache::new(defs);
     let mut w = BufWriter::new(std::fs::File::create(&out).unwrap());
     let rd = BufReader::new(std::fs::File::open(&cases).unwrap());
-    let arg0s: [&[u8]; 4] = [b"app", b"some/dir/app", b"./tool.v2", b"ap\xffp"];
+    let arg0s: [&[u8]; 7] = [b"app", b"some/dir/app", b"./tool.v2", b"ap\xffp", b"d\xffr/app", b"some/dir/app/", b""];
     let mut n = 0u64;
     for (ix, l) in rd.lines().enumerate() {
         let l = l.unwrap();
@@ -184,8 +184,8 @@ fn cmd_proc(args: &[String]) -> i32 {
         };
         let a0 = arg0s[case.get("arg0").and_then(J::as_u64).map(|x| x as usize).unwrap_or(ix) % arg0s.len()];
         // the documented rule: the program name is the file name of argv[0] (when it is UTF-8)
-        let fname = a0.rsplit(|c| *c == b'/').next().unwrap();
-        let name = std::str::from_utf8(fname).ok();
+        // (`Path::file_name`: directories - also ones that are not text - and a trailing separator do not matter)
+        let name = std::path::Path::new(std::ffi::OsStr::from_bytes(a0)).file_name().and_then(|f| f.to_str());
         let comp = case.get("comp").and_then(J::as_u64).map(|c| c as usize);
         let (b, _) = cache.get(&case);
         let b = match b {
